@@ -388,14 +388,16 @@ async def list(iterable: Union[Iterable[T], AsyncIterable[T]] = ()) -> List[T]:
 
     This is equivalent to ``[element async for element in iterable]``.
     """
-    return [element async for element in aiter(iterable)]
+    async with ScopedIter(iterable) as item_iter:
+        return [element async for element in item_iter]
 
 
 async def tuple(iterable: Union[Iterable[T], AsyncIterable[T]] = ()) -> Tuple[T, ...]:
     """
     Create a :py:class:`tuple` from an (async) iterable
     """
-    return (*[element async for element in aiter(iterable)],)
+    async with ScopedIter(iterable) as item_iter:
+        return (*[element async for element in item_iter],)
 
 
 async def dict(  # noqa: F811
@@ -410,7 +412,8 @@ async def dict(  # noqa: F811
     """
     if not iterable:
         return {**kwargs}
-    base_dict: Dict[Any, T] = {key: value async for key, value in aiter(iterable)}
+    async with ScopedIter(iterable) as item_iter:
+        base_dict: Dict[Any, T] = {key: value async for key, value in item_iter}
     if kwargs:
         base_dict.update(kwargs)
     return base_dict
@@ -422,7 +425,8 @@ async def set(iterable: Union[Iterable[T], AsyncIterable[T]] = ()) -> Set[T]:
 
     This is equivalent to ``{element async for element in iterable}``.
     """
-    return {element async for element in aiter(iterable)}
+    async with ScopedIter(iterable) as item_iter:
+        return {element async for element in item_iter}
 
 
 async def sorted(
